@@ -66,8 +66,10 @@ for name in sorted(os.listdir(os.path.join(V, "seeded"))):
     table.append((name, str(m.get("property", name[:3]))[:3], res, str(m.get("what", ""))[:170]))
 with open(os.path.join(V, "seeded", "README.md"), "w") as f:
     f.write("# Independently seeded changes and which check catches them\n\nWritten by sub-agents that saw only the text of one property and a "
-            "scratch worktree (three rounds: `_1/_2`, `_3/_4` asked for changes outside the base class, `_5/_6` asked for changes that are hard "
-            "to notice); confirmed by `tools/seed_eval.py` / `tools/seed_tests.py` (demo fails with / passes without the change, the 285 tests "
+            "scratch worktree (five rounds: `_1/_2`, `_3/_4` asked for changes outside the base class, `_5/_6` asked for changes that are hard "
+            "to notice, `_7/_8` for numerical edges, aliasing, off-by-one, exception handling, data-model and stale-cache mechanisms, `_9` "
+            "for changes that need a particular input, call sequence, mode or two cooperating edits to manifest; a `first_contact` entry in "
+            "meta.json says what the machinery of that time reported before it was strengthened); confirmed by `tools/seed_eval.py` / `tools/seed_tests.py` (demo fails with / passes without the change, the 285 tests "
             "pass, the property's quick check run against the changed tree).\n\n| seed | property | result of `./check <property>` on the "
             "changed tree | change |\n|---|---|---|---|\n")
     for t_ in table:
